@@ -103,6 +103,16 @@ def _dom_cov2cor(tier, seed):
             yield dict(args=[c])
     yield dict(args=[np.array([[1.0, 0.2], [0.2, 0.0]])])
     yield dict(args=[np.array([[-1.0, 0.2], [0.2, 3.0]])])
+    # symmetric, positive diagonal, not positive semi-definite (the statement asks for no more than the first two):
+    # "correlations" beyond +-1 are returned as they are
+    yield dict(args=[np.array([[1.0, 2.5], [2.5, 4.0]])])
+    yield dict(args=[np.array([[2.0, -3.0, 0.1], [-3.0, 1.0, 0.0], [0.1, 0.0, 5.0]])])
+    for n in range(2, 7):
+        for _ in range(2 if tier == "quick" else 20):
+            m = np.array([[rng.uniform(-3, 3) for _ in range(n)] for _ in range(n)])
+            m = (m + m.T) / 2
+            m[np.diag_indices(n)] = [rng.uniform(0.1, 2.0) for _ in range(n)]
+            yield dict(args=[m])
 
 
 @domain("esutil.stat.util.cor2cov")
